@@ -69,7 +69,7 @@ def cases(rng, tier):
     if tier == "quick":
         cs = cs[:len(CORPUS)] + rng.sample(cs[len(CORPUS):], 4000) if False else cs
     for (a, b) in targeted(rng): cs.append(("incl %s %s" % (a.fmt(), b.fmt()), "targeted"))
-    for (a, b) in split_family(rng, 5000 if tier == "quick" else 150000): cs.append(("incl %s %s" % (a.fmt(), b.fmt()), "targeted_split"))
+    for (a, b) in split_family(rng, 5000 if tier == "quick" else 40000): cs.append(("incl %s %s" % (a.fmt(), b.fmt()), "targeted_split"))
     n = 2000 if tier == "quick" else 40000
     for _ in range(n):
         sg = rng.choice([gen.SIGMA, gen.SIGMA, gen.SIGMA3])
